@@ -167,7 +167,7 @@ def check_c04(tier, seed, wd):
     blocks = ['', '-B4', '-B5', '-B6', '-B7', '-B32', '-B65536', '-B70000', '-B1048577']
     deps = ['', '-BD', '-BI']
     dictfile = os.path.join(wd, 'dict.bin'); dictdata = gen_content(rng, 70000, 'lz'); write_file(dictfile, dictdata)
-    ncases = 260 if ctx.thorough else 44
+    ncases = 268 if ctx.thorough else 52
     for ci in range(ncases):
         legacy = rng.random() < 0.12
         big = (ci % 4 == 0)
@@ -183,9 +183,19 @@ def check_c04(tier, seed, wd):
         # small default-format archives at a fast level with independent blocks: compared byte for byte with Model/CliFrame.lean (both builds)
         pinned_frame = 9 <= ci <= 16
         if pinned_frame: legacy, n, lvl = False, [0, 1, 13, 65535, 65536, 70000, 250000, 262144][ci - 9], rng.choice(['-1', '--fast=3', '--fast=1', '-1'])
+        # small default-format archives at a fast level with LINKED blocks (-BD): compared byte for byte with Model/CliLinked.lean (both builds)
+        pinned_linked = 17 <= ci <= 24
+        if pinned_linked: legacy, n, lvl = False, [1, 65535, 65536, 65537, 131072, 200000, 262145, 290000][ci - 17], rng.choice(['-1', '--fast=3', '--fast=1', '-1'])
         content = gen_content(rng, n, kind)
         opts = [lvl]; want_bsid = 0; want_indep = 2; want_cs = 2; want_cc = 2; use_dict = False
         if legacy: opts = ['-l'] + ([lvl] if lvl in ('-1', '-9', '-3', '--fast=3') else [])
+        elif pinned_linked:
+            b = rng.choice(['-B4', '-B4', '-B5', '', '-B4'])
+            if b: opts.append(b); want_bsid = int(b[2])
+            opts.append('-BD'); want_indep = 0
+            if rng.random() < 0.4: opts.append('-BX')
+            if rng.random() < 0.4: opts.append('--content-size'); want_cs = 1 if n > 0 else 2
+            if rng.random() < 0.3: opts.append('--no-frame-crc'); want_cc = 0
         elif pinned_frame:
             b = rng.choice(['', '-B4', '-B5', '-B6', '-B7', '-B4'])
             if b: opts.append(b); want_bsid = int(b[2])
@@ -209,7 +219,7 @@ def check_c04(tier, seed, wd):
         src = os.path.join(wd, 'in.bin'); write_file(src, content)
         pipe = rng.random() < 0.3
         comp_mt = rng.random() < 0.5
-        if pinned_frame: comp_mt = (ci % 2 == 0)
+        if pinned_frame or pinned_linked: comp_mt = (ci % 2 == 0)
         comp_exe = B['mt' if comp_mt else 'st']
         arch = os.path.join(wd, 'in.lz4')
         if os.path.exists(arch): os.unlink(arch)
